@@ -302,7 +302,8 @@ def mutated_streams(draw, allow_valid=True):
         for seq in d.get("sequences", []):
             for du in seq.get("data_units", []):
                 pi = du.get("parse_info", {})
-                if pi.get("parse_code") in (0x20, 0x30) and isinstance(pi.get("next_parse_offset"), int):
+                pc = pi.get("parse_code")
+                if isinstance(pc, int) and ((pc & 0xF8) == 0x20 or pc == 0x30) and isinstance(pi.get("next_parse_offset"), int):
                     pi["next_parse_offset"] = min(pi["next_parse_offset"], 13 + 2048)
         fix_offsets = draw(st.booleans())
         try:
